@@ -21,6 +21,7 @@ CLAIMED = {
  "C06": func("every comparison predicate (ct and vartime, Eq/Ord/PartialOrd, zero/one/odd/even/min/max/sign tests) on Limb, Uint, Int, BoxedUint of equal and different precision and NonZero/Odd/Wrapping wrappers is checked against the mathematical order on relation-derived pairs; equal values must hash equally (two hashers); select/assign/swap/negate checked bitwise for both choices; option types report is_some as documented.", "DESIGN.md §4 C06"),
  "C07": func("add/sub/neg/double/mul (ct, vartime, special-modulus) and halving on Uint 1..16 limbs and BoxedUint 1..20 limbs for structured moduli (1, 2, 3, 2^BITS-1, 2^(BITS-1)+-1, zero high limbs, 2^BITS-c with c from 1 to MAX) and relation-derived operands; result must be the canonical residue.", "DESIGN.md §4 C07"),
  "C08": func("history monitor: generated operation sequences (<= 64 steps over six registers: new/zero/one/add/sub/neg/double/mul/square/div_by_2 in every API form incl. multiplier objects, select/swap, Montgomery round trip) are replayed in lock-step on MontyForm<L>, BoxedMontyForm and ConstMontyForm (21-entry compile-time modulus bank) and on a BigUint model of Z/mZ; after every step every register of every representation must be canonical (< m), retrieve to the model value, equal x*R mod m and be limb-identical across representations; a parameter monitor compares all constructors (new, new_vartime, macro constants, from_const_params) with the definitions R, R^2, R^3 mod m, -m^-1 mod 2^64 and the clamped leading-zero count.", "DESIGN.md §4 C08", "history monitor against a sequential BigUint model of Z/mZ (every prefix checked) + parameter-definition monitor"),
+ "C09": func("pow / pow_bounded_exp / Pow / PowBoundedExp / MultiExponentiate(BoundedExp) (arrays and slices) / lincomb_vartime in the runtime, boxed and compile-time (bank) implementations against BigUint modpow, products of powers and sums of products; bit bound k exhaustive for 1-2 limb exponents and window/limb-boundary values otherwise, exponents with bits just above k, 1..=40 lincomb terms over moduli with 0..=70 leading zero bits; results must be canonical and the three implementations limb-identical.", "DESIGN.md §4 C09"),
 }
 
 checks = []
